@@ -344,6 +344,7 @@ Record cfg := mkCfg {
 Inductive fault := FNone | FFail (from : Z) | FStall.
 Inductive sop :=
 | SHold | SSettle | SOff | SOn
+| SRefresh                    (* layer.Refresh: a new fetcher; the compressed-blob cache starts cold under the new keys *)
 | SPf (n : nat) (f : fault)
 | SRel
 | SWait (n : nat)
@@ -390,14 +391,15 @@ Record sst := mkS {
   s_fs : list key;                (* keys that went through a successful readAndCache / cacheData *)
   s_exact : bool;                 (* s_fs is exactly the set of cached keys (else a lower bound) *)
   s_stalled : option (list (Z * Z) * list key);  (* prefetch body parked in the registry: its requests, its keys *)
-  s_pfok : bool; s_bgok : bool
+  s_pfok : bool;                  (* a prefetch body returned nil *)
+  s_cold : bool                   (* the compressed-blob cache was orphaned by a Refresh (new fetcher, new cache keys) *)
 }.
 
 Definition sinit (c : cfg) : sst := mkS winit 0 true false [] (c_exact c) None false false.
 
-Definition set_w (s : sst) w := mkS w (s_next s) (s_reg s) (s_held s) (s_fs s) (s_exact s) (s_stalled s) (s_pfok s) (s_bgok s).
-Definition add_fs (s : sst) ks := mkS (s_w s) (s_next s) (s_reg s) (s_held s) (ks ++ s_fs s) (s_exact s) (s_stalled s) (s_pfok s) (s_bgok s).
-Definition inexact (s : sst) := mkS (s_w s) (s_next s) (s_reg s) (s_held s) (s_fs s) false (s_stalled s) (s_pfok s) (s_bgok s).
+Definition set_w (s : sst) w := mkS w (s_next s) (s_reg s) (s_held s) (s_fs s) (s_exact s) (s_stalled s) (s_pfok s) (s_cold s).
+Definition add_fs (s : sst) ks := mkS (s_w s) (s_next s) (s_reg s) (s_held s) (ks ++ s_fs s) (s_exact s) (s_stalled s) (s_pfok s) (s_cold s).
+Definition inexact (s : sst) := mkS (s_w s) (s_next s) (s_reg s) (s_held s) (s_fs s) false (s_stalled s) (s_pfok s) (s_cold s).
 
 Fixpoint repeat_op (n : nat) (o : aop) (w : wst) : wst :=
   match n with O => w | S k => repeat_op k o (wstep w o) end.
@@ -430,11 +432,14 @@ Definition sstep (c : cfg) (fs : list file) (pre : list Z) (s : sst) (o : sop) :
   match o with
   | SHold =>
       let lossy := negb (lossless (c_fs c)) || negb (c_http_lossless c) in
-      (mkS w (s_next s) (s_reg s) lossy (s_fs s) (s_exact s) (s_stalled s) (s_pfok s) (s_bgok s), mkP (Some ROk) None None false)
+      (mkS w (s_next s) (s_reg s) lossy (s_fs s) (s_exact s) (s_stalled s) (s_pfok s) (s_cold s), mkP (Some ROk) None None false)
   | SSettle =>
-      (mkS w (s_next s) (s_reg s) false (s_fs s) (s_exact s) (s_stalled s) (s_pfok s) (s_bgok s), mkP (Some ROk) None None false)
-  | SOff => (mkS w (s_next s) false (s_held s) (s_fs s) (s_exact s) (s_stalled s) (s_pfok s) (s_bgok s), mkP (Some ROk) None None false)
-  | SOn => (mkS w (s_next s) true (s_held s) (s_fs s) (s_exact s) (s_stalled s) (s_pfok s) (s_bgok s), mkP (Some ROk) None None false)
+      (mkS w (s_next s) (s_reg s) false (s_fs s) (s_exact s) (s_stalled s) (s_pfok s) (s_cold s), mkP (Some ROk) None None false)
+  | SOff => (mkS w (s_next s) false (s_held s) (s_fs s) (s_exact s) (s_stalled s) (s_pfok s) (s_cold s), mkP (Some ROk) None None false)
+  | SOn => (mkS w (s_next s) true (s_held s) (s_fs s) (s_exact s) (s_stalled s) (s_pfok s) (s_cold s), mkP (Some ROk) None None false)
+  | SRefresh =>
+      if s_reg s then (mkS w (s_next s) (s_reg s) (s_held s) (s_fs s) (s_exact s) (s_stalled s) (s_pfok s) true, mkP (Some ROk) None None false)
+      else (s, mkP (Some RErr) None None false)
   | SPf n f =>
       let n := Nat.max n 1 in
       match pf w with
@@ -442,7 +447,7 @@ Definition sstep (c : cfg) (fs : list file) (pre : list Z) (s : sst) (o : sop) :
           let w1 := repeat_op n PfCall w in
           match prefetch_range (c_np c) (c_lm c) (c_size c) (c_blob c) with
           | None =>
-              (set_w (mkS w (s_next s) (s_reg s) (s_held s) (s_fs s) (s_exact s) None true (s_bgok s)) (wstep w1 (PfReturn true)),
+              (set_w (mkS w (s_next s) (s_reg s) (s_held s) (s_fs s) (s_exact s) None true (s_cold s)) (wstep w1 (PfReturn true)),
                mkP (Some ROk) (Some ([], true)) (Some 0) false)
           | Some tgt =>
               let w2 := if goes_async (c_async c) tgt then wstep w1 PfAsync else w1 in
@@ -453,7 +458,7 @@ Definition sstep (c : cfg) (fs : list file) (pre : list Z) (s : sst) (o : sop) :
               let preqs ok := if c_http_lossless c then Some (reqs, strict || negb ok) else None in
               match f, reqs, s_reg s with
               | FStall, _ :: _, _ =>      (* the registry parks a request before it decides whether to answer *)
-                  (mkS w2 (s_next s) (s_reg s) (s_held s) (s_fs s) (s_exact s) (Some (reqs, keys)) false (s_bgok s),
+                  (mkS w2 (s_next s) (s_reg s) (s_held s) (s_fs s) (s_exact s) (Some (reqs, keys)) false (s_cold s),
                    mkP (Some RStalled) None None false)
               | _, _, _ =>
                   let ok := negb (existsb (req_fails f (s_reg s)) reqs) in
@@ -462,11 +467,11 @@ Definition sstep (c : cfg) (fs : list file) (pre : list Z) (s : sst) (o : sop) :
                   let certain := strict || negb ok || (s_reg s && match f with FFail _ => false | _ => true end) in
                   if known && certain then
                     let s1 := mkS (wstep w2 (PfReturn ok)) (s_next s) (s_reg s) (s_held s)
-                                  (if ok then keys ++ s_fs s else s_fs s) (s_exact s) None ok (s_bgok s) in
+                                  (if ok then keys ++ s_fs s else s_fs s) (s_exact s) None ok (s_cold s) in
                     (s1, mkP (Some (if ok then ROk else RErr)) (preqs ok) (Some (if ok then tgt else 0)) false)
                   else
                     (* compressed chunks may be re-fetched while their persistence is held: no claim on success *)
-                    (inexact (mkS (wstep w2 (PfReturn ok)) (s_next s) (s_reg s) (s_held s) (s_fs s) (s_exact s) None false (s_bgok s)),
+                    (inexact (mkS (wstep w2 (PfReturn ok)) (s_next s) (s_reg s) (s_held s) (s_fs s) (s_exact s) None false (s_cold s)),
                      nopred)
               end
           end
@@ -480,14 +485,14 @@ Definition sstep (c : cfg) (fs : list file) (pre : list Z) (s : sst) (o : sop) :
           let strict := match c_lm c with Some _ => true | None => false end in
           let ok := s_reg s in     (* the parked requests are answered iff the registry is reachable when released *)
           if known && (strict || negb ok) then
-            (mkS (wstep w (PfReturn ok)) (s_next s) (s_reg s) (s_held s) (if ok then keys ++ s_fs s else s_fs s) (s_exact s) None ok (s_bgok s),
+            (mkS (wstep w (PfReturn ok)) (s_next s) (s_reg s) (s_held s) (if ok then keys ++ s_fs s else s_fs s) (s_exact s) None ok (s_cold s),
              mkP (Some (if ok then ROk else RErr)) (if c_http_lossless c then Some (reqs, strict || negb ok) else None) None false)
           else if known then
             (* no landmark: the decompression phase may read on; with a reachable registry and no fault it succeeds *)
-            (mkS (wstep w (PfReturn true)) (s_next s) (s_reg s) (s_held s) (keys ++ s_fs s) (s_exact s) None true (s_bgok s),
+            (mkS (wstep w (PfReturn true)) (s_next s) (s_reg s) (s_held s) (keys ++ s_fs s) (s_exact s) None true (s_cold s),
              mkP (Some ROk) (if c_http_lossless c then Some (reqs, false) else None) None false)
           else
-            (inexact (mkS (wstep w (PfReturn true)) (s_next s) (s_reg s) (s_held s) (s_fs s) (s_exact s) None false (s_bgok s)), nopred)
+            (inexact (mkS (wstep w (PfReturn true)) (s_next s) (s_reg s) (s_held s) (s_fs s) (s_exact s) None false (s_cold s)), nopred)
       | None => (s, mkP (Some RNone) None None false)
       end
   | SWait n =>
@@ -495,13 +500,13 @@ Definition sstep (c : cfg) (fs : list file) (pre : list Z) (s : sst) (o : sop) :
       if closed w then
         (* every call returns nil at once *)
         let w1 := fold_left (fun w i => wstep w (WaitEnter (s_next s + i)%nat)) (seq 0 n) w in
-        (mkS w1 (s_next s + n) (s_reg s) (s_held s) (s_fs s) (s_exact s) (s_stalled s) (s_pfok s) (s_bgok s), mkP (Some ROk) None None false)
+        (mkS w1 (s_next s + n) (s_reg s) (s_held s) (s_fs s) (s_exact s) (s_stalled s) (s_pfok s) (s_cold s), mkP (Some ROk) None None false)
       else
         (* all park; the first timer closes the waiter; the others time out as well or see the closed channel *)
         let w1 := fold_left (fun w i => wstep w (WaitEnter (s_next s + i)%nat)) (seq 0 n) w in
         let w2 := wstep w1 (WaitTimeout (s_next s)) in
         let w3 := fold_left (fun w i => wstep w (WaitDone (s_next s + i)%nat)) (seq 1 (n - 1)) w2 in
-        (mkS w3 (s_next s + n) (s_reg s) (s_held s) (s_fs s) (s_exact s) (s_stalled s) (s_pfok s) (s_bgok s), mkP (Some RTimeout) None None false)
+        (mkS w3 (s_next s + n) (s_reg s) (s_held s) (s_fs s) (s_exact s) (s_stalled s) (s_pfok s) (s_cold s), mkP (Some RTimeout) None None false)
   | SReadPrio | SReadAll =>
       if busy then (s, mkP (Some RNone) None None false)
       else
@@ -525,7 +530,7 @@ Definition sstep (c : cfg) (fs : list file) (pre : list Z) (s : sst) (o : sop) :
   | SCheck registered check_always noprefetch full =>
       let conn_ok := full || negb check_always || s_reg s in
       let '(w1, r, waited) := fs_check registered conn_ok noprefetch w (s_next s) in
-      (mkS w1 (S (s_next s)) (s_reg s) (s_held s) (s_fs s) (s_exact s) (s_stalled s) (s_pfok s) (s_bgok s),
+      (mkS w1 (S (s_next s)) (s_reg s) (s_held s) (s_fs s) (s_exact s) (s_stalled s) (s_pfok s) (s_cold s),
        mkPred (Some r) None None (Some waited) false)
   | SBg n f intf =>
       let n := Nat.max n 1 in
@@ -535,16 +540,16 @@ Definition sstep (c : cfg) (fs : list file) (pre : list Z) (s : sst) (o : sop) :
         | Idle =>
             let w1 := repeat_op n BgCall w in
             let nonland := filter (fun f => negb (f_land f)) fs in
-            if files_local s fs && lossless_now c s then
-              (mkS (wstep w1 (BgReturn true)) (s_next s) (s_reg s) (s_held s) (s_fs s) (s_exact s) None (s_pfok s) true,
+            if files_local s fs && lossless_now c s && (negb (s_cold s) || (s_reg s && match f with FNone => true | _ => false end)) then
+              (mkS (wstep w1 (BgReturn true)) (s_next s) (s_reg s) (s_held s) (s_fs s) (s_exact s) None (s_pfok s) (s_cold s),
                mkP (Some ROk) None None false)
             else
               match f, s_reg s, lossless_now c s with
               | FNone, true, true =>
-                  (mkS (wstep w1 (BgReturn true)) (s_next s) (s_reg s) (s_held s) (all_keys fs ++ s_fs s) (s_exact s) None (s_pfok s) true,
+                  (mkS (wstep w1 (BgReturn true)) (s_next s) (s_reg s) (s_held s) (all_keys fs ++ s_fs s) (s_exact s) None (s_pfok s) (s_cold s),
                    mkP (Some ROk) None None false)
               | _, _, _ =>
-                  (inexact (mkS (wstep w1 (BgReturn false)) (s_next s) (s_reg s) (s_held s) (s_fs s) (s_exact s) None (s_pfok s) false), nopred)
+                  (inexact (mkS (wstep w1 (BgReturn false)) (s_next s) (s_reg s) (s_held s) (s_fs s) (s_exact s) None (s_pfok s) (s_cold s)), nopred)
               end
         | _ => (set_w s (repeat_op n BgCall w), mkP (Some ROk) None None false)
         end
@@ -563,7 +568,7 @@ Definition sstep2 (c : cfg) (fs : list file) (pre : list Z) (s : sst) (o : sop) 
       else match f with
            | FNone => let '(s2, _) := sstep c fs pre s1 (SBg 1 FNone false) in (s2, p1')
            | _ => (inexact (mkS (wstep (wstep (s_w s1) BgCall) (BgReturn false)) (s_next s1) (s_reg s1) (s_held s1) (s_fs s1) false
-                                (s_stalled s1) false false), mkP (Some ROk) None None false)
+                                (s_stalled s1) false (s_cold s1)), mkP (Some ROk) None None false)
            end
   | _ => sstep c fs pre s o
   end.
